@@ -298,3 +298,93 @@ def random_alternating(rng, n):
                 i += l1
                 j += l2
     return ops
+
+
+# ---------- texts ----------
+def hx(b):
+    return b.hex() if b else "-"
+
+
+VALID_SYMS = [b"a", b"b", b" ", b"\r", b"\n", b"\xc2\xa0", b"\xe2\x80\xa8", b"\xe3\x80\x80", b"\xc2\x85",
+              b"\xcc\x81", b"\xe2\x80\x8d", b"\xf0\x9f\x87\xa9", b"\x00", b"\t", b"\xc3\xa9", b"."]
+INVALID_SYMS = [b"\xe0\xa0", b"\xff", b"\xc0", b"\x80", b"\xf0\x90\x80", b"\xed\xa0\x80", b"\xf4\x90", b"\xc2"]
+
+
+def all_texts(syms, maxlen):
+    out = []
+    for n in range(maxlen + 1):
+        for t in itertools.product(syms, repeat=n):
+            out.append(b"".join(t))
+    return out
+
+
+def rand_text(rng, maxsyms, invalid=False, line_bias=False):
+    syms = VALID_SYMS + (INVALID_SYMS if invalid else [])
+    n = rng.randrange(0, maxsyms + 1)
+    out = []
+    for _ in range(n):
+        r = rng.random()
+        if line_bias and r < 0.25:
+            out.append(rng.choice([b"\n", b"\r\n", b"\r", b"\n"]))
+        elif r < 0.6:
+            out.append(rng.choice([b"a", b"b", b"foo", b"bar", b" "]))
+        else:
+            out.append(rng.choice(syms))
+    return b"".join(out)
+
+
+WORDS = [b"foo", b"bar", b"baz", b"qux", b"x", b"caf\xc3\xa9", b"\xe4\xb8\x96\xe7\x95\x8c", b"a.b", b"12"]
+
+
+def rand_line(rng, invalid=False):
+    k = rng.randrange(0, 6)
+    parts = []
+    for i in range(k):
+        parts.append(rng.choice(WORDS + ([b"\xff", b"\xe0\xa0"] if invalid else [])))
+        if i + 1 < k:
+            parts.append(rng.choice([b" ", b"  ", b"\t", b", ", b"\xc2\xa0"]))
+    return b"".join(parts)
+
+
+def rand_lines_text(rng, maxlines, invalid=False, alphabet=None):
+    """a text made of lines; small line alphabet so that diffs have repeats"""
+    n = rng.randrange(0, maxlines + 1)
+    if alphabet is None:
+        alphabet = [rand_line(rng, invalid) for _ in range(rng.randrange(1, 6))] + [b"", b"a", b"b"]
+    out = []
+    for i in range(n):
+        out.append(rng.choice(alphabet))
+        if i + 1 < n or rng.random() < 0.7:
+            out.append(rng.choice([b"\n", b"\n", b"\n", b"\r\n", b"\r"]))
+    return b"".join(out), alphabet
+
+
+def edit_lines_text(rng, text, alphabet):
+    """edit a line text: delete/insert/replace/modify-one-word of some lines"""
+    import re as _re
+    lines = _re.findall(rb"[^\r\n]*(?:\r\n|\r|\n)|[^\r\n]+", text)
+    for _ in range(rng.randrange(0, 4)):
+        r = rng.random()
+        if r < 0.3 and lines:
+            del lines[rng.randrange(len(lines))]
+        elif r < 0.55:
+            lines.insert(rng.randrange(len(lines) + 1), rng.choice(alphabet) + rng.choice([b"\n", b"\r\n", b"\r"]))
+        elif lines:
+            k = rng.randrange(len(lines))
+            l = lines[k]
+            # change one word of the line (inline diffs)
+            ws = l.split(b" ")
+            ws[rng.randrange(len(ws))] = rng.choice(WORDS)
+            nl = b" ".join(ws)
+            if not nl.endswith((b"\n", b"\r")) and rng.random() < 0.8:
+                nl += b"\n"
+            lines[k] = nl
+    out = b"".join(lines)
+    if rng.random() < 0.15 and out.endswith(b"\n"):
+        out = out[:-1]
+    return out
+
+
+def tokens_text(rng, ntok, sep=b"\n", alpha=6):
+    """a text with exactly ntok line tokens over a small alphabet"""
+    return b"".join(str(rng.randrange(alpha)).encode() + sep for _ in range(ntok))
